@@ -45,8 +45,12 @@ theorem det_accepts_perm (regs regs' : List String) (h : regs.Perm regs') (gz : 
     (c : OperandCfg) (f : Form) : accepts regs' gz id c f = accepts regs gz id c f := by
   have H : ∀ e, hasReg regs' e = hasReg regs e := det_hasReg_perm regs regs' h
   have H2 : ∀ gz e l, firstIdx regs' gz e l = firstIdx regs gz e l := det_firstIdx_perm regs regs' h
+  have H3 : ∀ id r code off e, acceptIndReg regs' id r code off e = acceptIndReg regs id r code off e := by
+    intro id r code off e
+    unfold acceptIndReg
+    simp only [H]
   unfold accepts
-  simp only [H, H2]
+  simp only [H, H2, H3]
 
 theorem det_firstAccept_perm (regs regs' : List String) (h : regs.Perm regs') (gz : Int × Int) (f : Form)
     (l : List (String × OperandCfg)) : firstAccept regs' gz f l = firstAccept regs gz f l := by
